@@ -59,6 +59,8 @@ def run(rep: vlib.Reporter, tier: str, seed: int) -> None:
     specs += [daggen.gen_partial_request(rng) for _ in range(40 if big else 8)]
     # one uploaded table read by several other workers, the last of them late (transform steps + the join with a slow source)
     specs += [daggen.gen_shared_upload(rng) for _ in range(12 if big else 3)]
+    # a two-column root read partly by its own framework, partly by another one (upload marking; regression input of 3a3ea33)
+    specs += [daggen.gen_partial_reader(rng) for _ in range(8 if big else 2)]
     # unordered IN-PLACE siblings (pandas mutate / Series, python-dict rows) on one object + a consumer of all of them: every
     # finish order of the siblings is run; one family in four has a replacing sibling (the recorded hazard)
     specs += [daggen.gen_inplace_siblings(rng, all_inplace=(k % 4 != 3)) for k in range(32 if big else 6)]
@@ -130,7 +132,7 @@ def run(rep: vlib.Reporter, tier: str, seed: int) -> None:
                     rep.finding(f"threading:{key}:{sched}", what, replay)
                     found = True
         # MULTIPROCESSING (sampled)
-        for k in range(n_mp + (2 if r["spec"].get("delay_ms") else 0)):
+        for k in range(max(n_mp, r["spec"].get("mp_runs", 0)) + (2 if r["spec"].get("delay_ms") else 0)):
             dist["mp_runs"] += 1
             n_eval += 1
             m = run_observed(sess, modes={ParallelizationMode.MULTIPROCESSING}, flight_server=fs, timeout=40)
